@@ -91,7 +91,7 @@ pub fn gen(ctx: &mut Ctx) {
         let id_len = if ctx.rng.bool() { *ctx.rng.pick(&id_lens) } else { ctx.rng.below(256) as u8 };
         let hm = if i % 7 == 0 { Hm::NoUv } else { Hm::None };
         let w = World { kind, counter_on: ctx.rng.bool(), id_len, hm, preload: vec![] };
-        let nsteps = if kind == Kind::Slot { 1 } else { ctx.rng.range(1, 5) };
+        let nsteps = ctx.rng.range(1, 5);
         let mut steps = vec![];
         for _ in 0..nsteps {
             let s = if ctx.rng.below(8) == 0 { ctx.rng.pick(&bad) } else { ctx.rng.pick(&sites) };
